@@ -317,11 +317,13 @@ func (c *Cluster) processReady(n *Node, crashAt int) {
 			switch m.GetTo() {
 			case raft.LocalAppendThread:
 				n.AppendQ = append(n.AppendQ, m)
+				n.AppendDig = append(n.AppendDig, fnv64(raft.VerifFmtMessage(m)))
 				if c.Spec != nil {
 					c.Spec.onWrite(n)
 				}
 			case raft.LocalApplyThread:
 				n.ApplyQ = append(n.ApplyQ, m)
+				n.ApplyDig = append(n.ApplyDig, fnv64(raft.VerifFmtMessage(m)))
 			default:
 				c.send(n, m)
 			}
@@ -487,6 +489,12 @@ func (c *Cluster) appendThread(n *Node) {
 	}
 	m := n.AppendQ[0]
 	n.AppendQ = n.AppendQ[1:]
+	if len(n.AppendDig) > 0 {
+		if d := fnv64(raft.VerifFmtMessage(m)); d != n.AppendDig[0] {
+			c.violate("*", "data handed out by Ready changed afterwards", "node %d: the MsgStorageAppend queued for the append thread is no longer what Ready handed out: now %s", n.ID, raft.VerifFmtMessage(m))
+		}
+		n.AppendDig = n.AppendDig[1:]
+	}
 	var hs *pb.HardState
 	if m.Term != nil || m.Vote != nil || m.Commit != nil {
 		hs = &pb.HardState{Term: new(m.GetTerm()), Vote: new(m.GetVote()), Commit: new(m.GetCommit())}
@@ -518,6 +526,12 @@ func (c *Cluster) applyThread(n *Node) {
 	}
 	m := n.ApplyQ[0]
 	n.ApplyQ = n.ApplyQ[1:]
+	if len(n.ApplyDig) > 0 {
+		if d := fnv64(raft.VerifFmtMessage(m)); d != n.ApplyDig[0] {
+			c.violate("*", "data handed out by Ready changed afterwards", "node %d: the MsgStorageApply queued for the apply thread is no longer what Ready handed out: now %s", n.ID, raft.VerifFmtMessage(m))
+		}
+		n.ApplyDig = n.ApplyDig[1:]
+	}
 	c.appApply(n, m.GetEntries())
 	for _, r := range m.GetResponses() {
 		if !n.Alive || n.RN == nil {
